@@ -13,9 +13,12 @@ import (
 	"context"
 	"crypto/sha256"
 	"fmt"
+	"io"
+	"net"
 	"os"
 	"path/filepath"
 	"sync"
+	"sync/atomic"
 	"testing"
 	"time"
 
@@ -289,6 +292,130 @@ func TestVerif_C07(t *testing.T) {
 			r.Eval(fmt.Sprintf("paused/%s/%d", p.Via, p.S2C), true)
 		}
 		r.Add("frames_tapped", int(tap.nFrames.Load()))
+	})
+
+	// ---- destinations that speak first (banner protocols): the destination starts sending the
+	// moment the exit connects, i.e. around the time the open is acknowledged, while other
+	// tunnels keep the links busy. The client must receive the banner from its first byte.
+	r.Cases("server-first", 1, func(ci int, crng *verifkit.Rand) {
+		dest, err := mkStartDest()
+		if err != nil {
+			r.Inconclusive(err.Error())
+			return
+		}
+		defer dest.close()
+		const bannerLen = 40000
+		banner := make([]byte, bannerLen)
+		mkGen(0xBA55, 1, 0, banner)
+		bl, err := net.Listen("tcp", "0.0.0.0:0")
+		if err != nil {
+			r.Inconclusive(err.Error())
+			return
+		}
+		defer bl.Close()
+		bport := bl.Addr().(*net.TCPAddr).Port
+		go func() {
+			for {
+				c, err := bl.Accept()
+				if err != nil {
+					return
+				}
+				go func(c net.Conn) {
+					defer c.Close()
+					c.Write(banner)
+					if tc, ok := c.(*net.TCPConn); ok {
+						tc.CloseWrite()
+					}
+					c.SetReadDeadline(time.Now().Add(10 * time.Second))
+					io.Copy(io.Discard, c) // until the client is done
+				}(c)
+			}
+		}()
+		tap := mkInstallTap()
+		defer tap.close()
+		over.hook(tap)
+		c16ExtraCfg = func(i int, c *config.Config) {
+			if i == 2 {
+				c.Forward.Endpoints = append(c.Forward.Endpoints, config.ForwardEndpoint{Key: "fwd-banner", Target: fmt.Sprintf("127.0.0.1:%d", bport)})
+			}
+		}
+		m, err := c16BuildMesh(t, chain3, dest, 30*time.Second)
+		c16ExtraCfg = nil
+		if err != nil {
+			r.Inconclusive("mesh did not come up: " + err.Error())
+			return
+		}
+		defer m.stop()
+		if err := m.waitForwardRoute(0, "fwd-banner", 30*time.Second); err != nil {
+			r.Inconclusive(err.Error())
+			return
+		}
+		stop := make(chan struct{})
+		var bulk sync.WaitGroup
+		for i := 0; i < 4; i++ { // bulk tunnels keeping the exit -> ingress direction busy
+			bulk.Add(1)
+			go func(i int) {
+				defer bulk.Done()
+				for k := 0; ; k++ {
+					select {
+					case <-stop:
+						return
+					default:
+					}
+					mkRunTunnel(m, mkTunnelPlan{ID: 0x7100 + uint64(i)<<8 + uint64(k), Ingress: 0, Via: "tcp", Dest: fmt.Sprintf("127.1.8.%d:%d", 1+i, dest.port), C2S: 100, S2C: 2 << 20, Mode: mkModeOrderly, Chunk: 100}, 30*time.Second)
+				}
+			}(i)
+		}
+		total := r.N(240, 2400)
+		var done, short, bad atomic.Int64
+		var firstBad atomic.Value
+		var dial sync.WaitGroup
+		ing := m.nodes[0].a
+		for w := 0; w < 8; w++ {
+			dial.Add(1)
+			go func(w int) {
+				defer dial.Done()
+				for k := 0; k < total/8; k++ {
+					ctx, cancel := context.WithTimeout(context.Background(), 15*time.Second)
+					var conn net.Conn
+					var err error
+					via := "tcp"
+					if (w+k)%3 == 0 {
+						via = "forward"
+						conn, err = ing.DialForward(ctx, "fwd-banner")
+					} else {
+						conn, err = ing.DialContext(ctx, "tcp", fmt.Sprintf("127.1.9.%d:%d", 1+w, bport))
+					}
+					cancel()
+					if err != nil {
+						continue
+					}
+					conn.SetDeadline(time.Now().Add(15 * time.Second))
+					got, rerr := io.ReadAll(io.LimitReader(conn, bannerLen+1))
+					conn.Close()
+					done.Add(1)
+					if bytes.Equal(got, banner) {
+						continue
+					}
+					if len(got) < bannerLen && bytes.Equal(got, banner[:len(got)]) && rerr != nil {
+						short.Add(1) // cut short by an error: not a reassembly failure
+						continue
+					}
+					bad.Add(1)
+					firstBad.CompareAndSwap(nil, fmt.Sprintf("%s tunnel to a destination that sends a %d-byte banner on connect: received %d bytes, %s, read err=%v", via, bannerLen, len(got), c07Diff(got, banner), rerr))
+				}
+			}(w)
+		}
+		dial.Wait()
+		close(stop)
+		bulk.Wait()
+		if v := firstBad.Load(); v != nil {
+			r.Violation("server-first:bytes-differ", "server-first", ci, fmt.Sprintf("%d of %d banner connections received other bytes than the destination sent (4 bulk tunnels on the same links); first: %s", bad.Load(), done.Load(), v.(string)), nil)
+		}
+		r.Add("server_first_connections_verified", int(done.Load()-short.Load()))
+		r.Add("server_first_connections_cut_short", int(short.Load()))
+		r.Add("frames_tapped", int(tap.nFrames.Load()))
+		r.Eval(fmt.Sprintf("server-first/%d", total), done.Load() >= int64(total/2))
 	})
 
 	// ---- shell and file transfer on one mesh
